@@ -2,7 +2,7 @@ PROP = dict(
     id="C09",
     lean_modules=["TongoProofs.C09", "TongoProofs.C09Tlb"],
     gen=[],
-    spec_ops=("tl.enc", "tl.dec", "tl.fenc", "tl.fdec", "tlc.req", "tl.ans", "tl.reqdec", "tlbs.enc"),
+    spec_ops=("tl.enc", "tl.dec", "tl.fenc", "tl.fdec", "tlc.req", "tlc.bind", "tl.ans", "tl.reqdec", "tlbs.enc"),
     rule="random TL schemas (3..40 declarations: liteServer.error, single-constructor types, sum types of 2..5 "
          "constructors, 1..8 functions; fields of every builtin type, bare and boxed references, vectors of builtins / "
          "declared types / vectors, conditional fields flag.N?T over bits 0..31 with up to three flag fields named "
@@ -24,8 +24,9 @@ PROP = dict(
     assumptions=[
         "this is translation validation over sampled programs: the theorems (round trip, prefix-freeness, layout "
         "clauses) are about the specification Tl.encode/Tl.decode for every schema; tl/parser/generator.go itself "
-        "is not modelled and no theorem of TongoProofs.C09 mentions its output - it is tied to the specification only "
-        "on the generated schemas; `compiles`, `exact layout`, `deterministic output` are observations on the samples",
+        "is not modelled - its output is tied to the specification only on the generated schemas (statically by the "
+        "matcher of steps_eq_schema, op tlc.bind, and by execution); `compiles`, `deterministic output` are "
+        "observations on the samples",
         "subset restrictions imposed by the generator and respected by the schema generator: ids spelled out with 8 "
         "hex digits, a bare reference only to an earlier single-constructor type, no boxed reference to a "
         "single-constructor type, the constructor of a single-constructor type is the lower-cased type name, "
@@ -33,12 +34,18 @@ PROP = dict(
         "CamelCase",
     ],
     partial=[
-        "no theorem about generator.go / tlb/parser/generator.go themselves (string templating over a participle AST): "
-        "they are tied to the specification by translation validation over the sampled schemas. The single exception: "
-        "for the schema shipped with the repository (liteclient/lite_api.tl) the TL generator's output "
-        "(liteclient/generated.go = regenerated text, oracle go.regen.liteclient) is extracted by translator X7 and "
-        "PROVED to implement the schema: C10.liteapi_steps_eq_schema, liteapi_client_request, liteapi_client_answer, "
-        "liteapi_decoder_table (evidence of C10)",
+        "no theorem about generator.go / tlb/parser/generator.go themselves (string templating over a participle AST). "
+        "TL compiler: its OUTPUT TEXT is the subject of steps_eq_schema / client_steps_eq_schema (for every schema S and "
+        "every output B - as read by translator X7, harness/tlbind - that the decidable matcher agreeAll accepts: the "
+        "MarshalTL / UnmarshalTL step sequences, request wrappers, answer handling and decoder table implement the "
+        "schema for ALL values). The matcher is evaluated per program: by the compiled Lean driver for every sampled "
+        "schema (spec op tlc.bind - compiled evaluation, not kernel; expected answer `ok 1`, an output with a statement "
+        "outside the shapes X7 knows is reported as an extraction failure), and by the kernel for the shipped "
+        "lite_api.tl / generated.go (C10: Gen.bindings_agree, liteapi_steps_eq_schema). Trusted there: X7 itself and "
+        "the hand model of the reflection helpers tl.Marshal / tl.Unmarshal on builtin types; the executed comparison "
+        "of every generated program with the specification is kept in full and covers both",
+        "TL-B compiler: no theorem mentions its output; tied to goBody per sampled schema by exact comparison of "
+        "reflection descriptors (tlbs.desc) and by executed values",
         "tl_spec_builtin, tl_spec_length_escape, tl_spec_composite and the encode conjuncts of tl_spec_padding restate "
         "the defining equations of the specification in bytes (reviewability); tl_layout_le, tl_layout_optional, "
         "tl_layout_items, tl_layout_vector and the padding characterisation of tl_spec_padding are proved by induction / "
@@ -61,11 +68,14 @@ PROP = dict(
                "is proved. Proved (about the specification Tl.encode/Tl.decode, for every well-formed schema, by "
                "functional induction on the encoder): tl_decode_encode (with arbitrary trailing bytes), tl_prefix_free, "
                "tl_encode_defined_iff_typed, tl_layout_optional / tl_layout_vector / tl_layout_le; the tl_spec_* "
-               "theorems only restate its definition in bytes. NO theorem of this property mentions the output of "
-               "tl/parser or tlb/parser; `compiles`, `exact layout` and `deterministic` are checked per sampled schema: "
+               "theorems only restate its definition in bytes. Proved about the TL compiler's OUTPUT (as extracted by "
+               "X7): steps_eq_schema, method_steps_eq_schema, client_steps_eq_schema - conditional on the decidable "
+               "matcher agreeAll, which is EVALUATED per sampled program by the compiled driver (op tlc.bind) and by "
+               "the kernel for the shipped schema (C10); so per sampled program the codecs are covered for all values, "
+               "the set of programs is a sample. `compiles` and `deterministic` are observations per sampled schema: "
                "each is compiled twice (identical), built, executed, and every answer is compared with the "
-               "specification evaluated by the Lean driver on the same schema text. For the one shipped schema the "
-               "generator output is covered by theorems of C10 (X7). TL-B half: tlb_schema_sound (consistency of the "
+               "specification evaluated by the Lean driver on the same schema text. NO theorem mentions the output of "
+               "tlb/parser. TL-B half: tlb_schema_sound (consistency of the "
                "twin readings goBody / specBody of a declaration through C04's matcher and the codec model, every schema "
                "of the subset) and tlb_schema_roundtrip (class okRT, from C03); the compiler is tied to them per generated "
                "program: the reflection descriptor of every GENERATED struct equals goBody of its declaration (op "
